@@ -128,11 +128,11 @@ class Pipeline:
     CalledProcessError = real_subprocess.CalledProcessError
 
     def __init__(self, run):
-        self.run = run
+        self.state = run
 
     # -- helpers
     def _publish(self, outdir, name, fname, content, on_written=None):
-        run = self.run
+        run = self.state
         d = os.path.join(outdir, name)
         if not os.path.isdir(d):
             run.tick("publish:mkdir:before:" + os.path.relpath(d, run.root))
@@ -184,8 +184,41 @@ class Pipeline:
             raise PipelineFailure(1, "nextflow: input file missing: %r" % (path,))
         return read(path)
 
-    def check_call(self, cmd, cwd=None):
-        run = self.run
+    # other ways a script may launch the same command
+    def call(self, cmd, *a, **k):
+        try:
+            return self.check_call(cmd, cwd=k.get("cwd"))
+        except PipelineFailure as e:
+            return e.returncode
+
+    def check_output(self, cmd, *a, **k):
+        self.check_call(cmd, cwd=k.get("cwd"))
+        return b""
+
+    def run_cmd(self, cmd, *a, **k):
+        class R:
+            returncode = 0
+            stdout = b""
+            stderr = b""
+
+            def check_returncode(self):
+                return None
+
+        try:
+            self.check_call(cmd, cwd=k.get("cwd"))
+        except PipelineFailure:
+            if k.get("check"):
+                raise
+            R.returncode = 1
+        return R()
+
+    def __getattr__(self, name):
+        if name == "run":
+            return self.run_cmd
+        return getattr(real_subprocess, name)
+
+    def check_call(self, cmd, cwd=None, **_kw):
+        run = self.state
         o = self._parse(cmd)
         mode = o.get("mode")
         outdir = o["outdir"]
